@@ -21,6 +21,7 @@ import (
 	"io"
 	"math/big"
 	"os"
+	"regexp"
 	"strconv"
 
 	"github.com/tdewolff/minify/v2"
@@ -40,30 +41,33 @@ type Case struct {
 }
 
 type Event struct {
-	ID    int         `json:"id"`
-	First bool        `json:"first"`
-	Last  bool        `json:"last"`
-	Keep  bool        `json:"keep"`
-	API   string      `json:"api"`
-	Rd    string      `json:"rd"`
-	It    []lib.Bytes `json:"it"`
-	Ot    []lib.Bytes `json:"ot"`
-	Ilen  int         `json:"ilen"`
-	Olen  int         `json:"olen"`
-	Igo   bool        `json:"igo"`
-	Ogo   bool        `json:"ogo"`
-	Panic bool        `json:"panic"`
-	Err   bool        `json:"err"`
+	ID    int    `json:"id"`
+	First bool   `json:"first"`
+	Last  bool   `json:"last"`
+	Keep  bool   `json:"keep"`
+	API   string `json:"api"`
+	Rd    string `json:"rd"`
+	Ilen  int    `json:"ilen"`
+	Olen  int    `json:"olen"`
+	Igo   bool   `json:"igo"`
+	Ogo   bool   `json:"ogo"`
+	Panic bool   `json:"panic"`
+	Err   bool   `json:"err"`
 	// second opinions / design-model drift, not used by the trace spec
 	EqRaw  bool   `json:"eqraw"`
 	EqDec  bool   `json:"eqdec"`
 	Ows    int    `json:"ows"`  // bytes of the output that belong to no lexeme (whitespace)
 	NumChg int    `json:"nchg"` // number lexemes whose spelling changed
-	Msg    string `json:"msg,omitempty"`
+	Msg    string `json:"msg"`
+	// raw lexemes of this window (kept last: the driver reads the fields above without parsing these)
+	It []lib.Bytes `json:"it"`
+	Ot []lib.Bytes `json:"ot"`
 }
 
-func isWS(c byte) bool     { return c == ' ' || c == '\t' || c == '\n' || c == '\r' }
-func isStruct(c byte) bool { return c == '{' || c == '}' || c == '[' || c == ']' || c == ':' || c == ',' }
+func isWS(c byte) bool { return c == ' ' || c == '\t' || c == '\n' || c == '\r' }
+func isStruct(c byte) bool {
+	return c == '{' || c == '}' || c == '[' || c == ']' || c == ':' || c == ','
+}
 
 // split cuts b into raw lexemes; offs[i] is the offset of lexeme i.
 func split(b []byte) (toks [][]byte, offs []int) {
@@ -198,7 +202,12 @@ func canonNum(s []byte) (canon, bool) {
 	return c, true
 }
 
+var jsonNumber = regexp.MustCompile(`^-?(0|[1-9][0-9]*)(\.[0-9]+)?([eE][+-]?[0-9]+)?$`)
+
 func numEq(a, b []byte, keep bool) bool {
+	if !jsonNumber.Match(a) || !jsonNumber.Match(b) {
+		return false // `.5`, `-.5`, `01`, `1.` are not JSON numbers, whatever their value
+	}
 	if keep {
 		return bytes.Equal(a, b)
 	}
